@@ -19,6 +19,11 @@ class AlgError(Exception):
     pass
 
 
+class ZeroDiv(AlgError):
+    """division by an expression that is identically zero: definite in the interpreted program (inf / nan)"""
+
+
+
 # --------------------------------------------------------------------------
 # Gaussian rationals
 # --------------------------------------------------------------------------
@@ -48,7 +53,7 @@ class GQ:
     def inv(self):
         d = self.re * self.re + self.im * self.im
         if d == 0:
-            raise AlgError("division by zero coefficient")
+            raise ZeroDiv("division by zero coefficient")
         return GQ(self.re / d, -self.im / d)
 
     def conj(self):
@@ -432,7 +437,7 @@ class Poly:
 
     def inverse(self):
         if not self.t:
-            raise AlgError("division by zero")
+            raise ZeroDiv("division by zero")
         if len(self.t) == 1:
             ((m, c),) = self.t.items()
             k, mm = mono_pow(m, -1)
